@@ -55,10 +55,22 @@ def _sfun(spf):
     return g
 
 
+_CSQRT_MEMO: dict = {}
+
+
 def _csqrt(e):
-    """sqrt with the radicand in canonical (expanded, common factors pulled out) form"""
+    """sqrt with the radicand in canonical (expanded, common factors pulled out) form (memoised: re-executed paths
+    ask for the same radicands again and again)"""
     if e.is_number:
         return sp.sqrt(e)
+    key = (e, id(IDEAL["G"]))
+    r = _CSQRT_MEMO.get(key)
+    if r is None:
+        r = _CSQRT_MEMO[key] = _csqrt_compute(e)
+    return r
+
+
+def _csqrt_compute(e):
     if IDEAL["G"] is not None:
         e = reduce_mod_ideal(e)
         if e.is_number:
@@ -177,6 +189,13 @@ class _Linalg:
     LinAlgError = _np.linalg.LinAlgError
 
 
+class _Random:
+    """numpy.random: every draw is an external with an assumed contract (a fresh unconstrained value in the stated range)"""
+
+    def uniform(self, low=0.0, high=1.0, size=None):
+        return EXTERNAL_STUBS["random.uniform"](low, high, size)
+
+
 def _det(m):
     m = _obj(m)
     if m.shape == (2, 2):
@@ -231,6 +250,7 @@ class _NP:
     complex128 = complex
     ndarray = (_np.ndarray, SymArr)
     linalg = _Linalg()
+    random = _Random()
     integer = _np.integer
     floating = _np.floating
     number = _np.number
